@@ -92,6 +92,29 @@ def lawsOk (t : VTable) : Bool :=
   t.u.all (fun ((_, a, _), r) =>
     (a != [] || r == none) && (r == none || lookup t.a a == some (some a)))
 
+/-- the table against the round-trip facts property C01 adds to `HttpLaws`
+    (`H3.E2E.HttpRoundTrip`; only what the table can judge): a value the `Scheme` /
+    `PathAndQuery` parser accepts prints as a value that the parser accepts and prints unchanged
+    (judged when the printed value is in the table — in particular when it prints as itself); a
+    built `Uri` has exactly the parts it was built from; a scheme, an authority and a
+    path-and-query that each parse to themselves always build. -/
+def roundTripOk (t : VTable) : Bool :=
+  let idem (l : List (Bytes × Option Bytes)) : Bool :=
+    l.all (fun (v, r) => match r with
+      | none => true
+      | some x => x == v || (match lookup l x with
+        | some y => y == some x
+        | none => true))
+  idem t.s && idem t.p &&
+  t.u.all (fun ((s, a, p), r) => match r with
+    | none => true
+    | some u => u.scheme == s && u.authority == some a && u.path == p) &&
+  t.u.all (fun ((s, a, p), r) => match s, p with
+    | some s', some p' =>
+      !(lookup t.s s' == some (some s') && lookup t.a a == some (some a) &&
+        lookup t.p p' == some (some p')) || r.isSome
+    | _, _ => true)
+
 /-! ### printing -/
 
 def optHex : Option Bytes → String
@@ -212,7 +235,7 @@ def handle : List String → String
   | ["hdr", op, f, vt] =>
     match parseFields f, parseVTable vt with
     | some fs, some t =>
-      if !lawsOk t then "law-violated ## ?" else
+      if !lawsOk t || !roundTripOk t then "law-violated ## ?" else
       let H := httpOf t
       if op == "req" then
         let m := match recvRequest H fs with
